@@ -15,7 +15,7 @@ Lemma sites_in_model k o s : In s (sites k o) -> In s model_sites.
 Proof.
   intros H. unfold model_sites. apply in_flat_map. exists o. split.
   - destruct o; simpl; tauto.
-  - apply in_or_app. destruct k; [left | right]; exact H.
+  - apply in_flat_map. exists k. split; [destruct k; simpl; tauto | exact H].
 Qed.
 
 Lemma all_true_op_forwards tbl k o : table_all_true tbl = true -> op_forwards tbl k o = true.
@@ -88,14 +88,14 @@ Proof.
   apply andb_prop in H. destruct H as [H1 H2]. apply Nat.eqb_eq in H1. subst. f_equal. apply IH. exact H2.
 Qed.
 
-Lemma check_flow_sound_l dflt posvel tag ops observed :
-  check_flow (dflt, posvel, tag, ops, observed) = 0%Z -> List.length observed = List.length ops /\ Forall (fun t => t = tag) observed.
+Lemma check_flow_sound_l dflt k tag ops observed :
+  check_flow (dflt, k, tag, ops, observed) = 0%Z -> List.length observed = List.length ops /\ Forall (fun t => t = tag) observed.
 Proof.
   unfold check_flow.
-  destruct (nats_eqb observed (tags_along spec_step (if posvel then KPosVel else KPos, tag) ops)) eqn:E.
+  destruct (nats_eqb observed (tags_along spec_step (kind_of_nat k, tag) ops)) eqn:E.
   - intros _. apply nats_eqb_eq in E. subst observed. split.
-    + generalize (if posvel then KPosVel else KPos, tag). induction ops as [|o ops IH]; intros s; simpl; [reflexivity|].
+    + generalize (kind_of_nat k, tag). induction ops as [|o ops IH]; intros s; simpl; [reflexivity|].
       f_equal. apply IH.
-    + exact (tags_along_spec ops (if posvel then KPosVel else KPos, tag)).
+    + exact (tags_along_spec ops (kind_of_nat k, tag)).
   - destruct (nats_eqb observed (tags_along (step _ _) _ _)); intros H; discriminate H.
 Qed.
